@@ -12,7 +12,7 @@ NOT_APPLICABLE["C13"] = (
 
 PROPS = {
     "C09": {
-        "rules": ["TRAV@C09", "TRAVBASE", "PARCHECK", "BACKPIPE", "PAREMIT", "PREDSPEC", "VERDICT", "FIELDS", "EXH"],
+        "rules": ["TRAV@C09", "TRAVBASE", "PARCHECK", "BACKPIPE", "PAREMIT", "PREDSPEC", "CTXSHAPE", "VERDICT", "FIELDS", "EXH"],
         "thorough": [],
         "technique": "static analysis: per-constructor path simulation of visitor overrides (traversal completeness) + pipeline def-use",
         "level_text": "Structural clauses only: every Par loop at any nesting depth reaches Check_ParallelizeLoop before code generation "
@@ -216,7 +216,7 @@ PROPS = {
         "design_ref": "DESIGN.md §3.12, §4 C06",
     },
     "C01": {
-        "rules": ["GUARD", "PREDSPEC", "CHECKFORM", "ZIPLEN", "NAMECONF", "FIELDS", "VERDICT", "VERDICTUSE", "LAYER", "EXH", "TRAV@C01", "TRAVBASE", "BYPASS"],
+        "rules": ["GUARD", "PREDSPEC", "CHECKFORM", "CTXSHAPE", "ZIPLEN", "NAMECONF", "FIELDS", "VERDICT", "VERDICTUSE", "LAYER", "EXH", "TRAV@C01", "TRAVBASE", "BYPASS"],
         "thorough": [],
         "technique": "static analysis: per-primitive obligation table decided by a must-analysis (dominance of side conditions over tree edits, with raising guards, flag assumptions and check-argument provenance), plus comparison/identity/verdict/layering/traversal rules",
         "level_text": "Structural clauses, decided for all programs and schedules from the source: every scheduling primitive reaches its tree edits only through the side conditions "
